@@ -105,6 +105,10 @@ def envOp : Handler := fun args =>
 def labelsOp : Handler := fun args =>
   outJson (resolveProjectLabels (fsOf args) (getBool args "discard") ((arr args "services").map serviceOfJson))
 
+/-- both Project methods on the same arguments -/
+def resolveOp : Handler := fun args =>
+  Json.mkObj [("env", envOp args), ("labels", labelsOp args)]
+
 /-- model of the environment / label part of a whole load -/
 def loadOp : Handler := fun args =>
   let penv := penvOf args
@@ -147,6 +151,6 @@ def specOp : Handler := fun args =>
         | some v => some (String.ofList k, str v)))]
 
 def handlers : List (String × Handler) :=
-  [("c16.env", envOp), ("c16.labels", labelsOp), ("c16.load", loadOp), ("c16.spec", specOp)]
+  [("c16.env", envOp), ("c16.labels", labelsOp), ("c16.resolve", resolveOp), ("c16.load", loadOp), ("c16.spec", specOp)]
 
 end CV.Ops.C16
